@@ -78,6 +78,10 @@ CLAIMED = {
          "The exhaustive single-field-definition clause is decided exactly (1.9 M validator points, every accepted point held against its consuming arm). For the rest, every potential panic site and every loop in the functions reachable from the five entry points is enumerated and must carry a discharge; an undischarged site or unclassified loop is reported with its call path. Hanging readers that violate the io.Reader contract, stdlib-internal panics and memory exhaustion are outside.",
          "Trusted: evaluator/interval transfer functions; documented reflect and encoding/binary panic conditions; <= 12 audited sites, each with its reason in checker/c01.go; nil-dereference freedom is covered only by the targeted guard rules (definition slot, profile row, logger, constructor table), not by a general nilness analysis.",
          "DESIGN.md 4 C01"),
+ "C19": ("other", "determinism lint (map-order rule with singleton facts, ambient-input and timestamp-flag rules) and emitter-agreement shape rules over the generator packages (syntax + types + SSA dominance)",
+         "Decides two structural necessary conditions of the generator: no iteration-order or ambient dependence in what is emitted (one frozen, reasoned exception), and the three per-field emitters walk the same slice one item per element with the table's struct index equal to the position, the version printed being the pair passed in, disabled rows skipped before the slice is built. Exit status, compilation and byte identity of real runs over workbook subsets need the command to run and are not decided.",
+         "Trusted: map iteration is the only nondeterminism source in sequential code without ambient inputs. Not decided: everything that requires running fitgen (see DESIGN.md 5).",
+         "DESIGN.md 4 C19"),
 }
 
 NOT_APPLICABLE = {
